@@ -340,11 +340,14 @@ static int vf_bind[VF_NINST][%(nimp)d + 1];
 static int vf_cur;
 static %(inst_t)s* vf_children[64];
 static int vf_nchildren;
+static int vf_creating_child;
 
 static int vf_tag(void* p) {
     int k;
     for (k = 0; k < VF_NINST; k++) if (p == (void*)&vf_inst[k]) return k;
     for (k = 0; k < vf_nchildren; k++) if (p == (void*)vf_children[k]) return 100 + k;
+    /* a host call made by the start function of a child that is still being created (its pointer is not known yet) */
+    if (vf_creating_child) return 100 + vf_nchildren;
     return -1;
 }
 
@@ -425,8 +428,7 @@ def gen_driver(m, modname, header_text, ninst=2, header_name=None, prefix_funcs=
     fexports = [(n, i) for n, kd, i in m.exports if kd == 'func']
     hnames = header_export_names(header_text, modname)
     out.append('static void vf_call(int k, int e, char* args) {')
-    out.append('  %sInstance* ip = &vf_inst[k]; U64 a[64]; int n = 0; char* tok;' % modname)
-    out.append('  if (k >= 100) ip = vf_children[k - 100];')
+    out.append('  %sInstance* ip = k >= 100 ? vf_children[k - 100] : &vf_inst[k]; U64 a[64]; int n = 0; char* tok;' % modname)
     out.append('  for (tok = strtok(args, " \\n"); tok && n < 64; tok = strtok(NULL, " \\n")) a[n++] = strtoull(tok, NULL, 16);')
     out.append('  vf_trapcode = -1;')
     out.append('  if (setjmp(vf_jb)) { printf("T %d\\n", vf_trapcode); return; }')
@@ -566,9 +568,22 @@ int main(void) {
             /* new child instance of instance k (thread-style sharing) */
             int k = atoi(line + 2);
             vf_cur = k;
-            vf_children[vf_nchildren] = (%(inst_t)s*)vf_inst[k].common.newChild((wasmModuleInstance*)&vf_inst[k]);
-            printf("K %%d\n", 100 + vf_nchildren);
-            vf_nchildren++;
+            vf_trapcode = -1;
+            if (setjmp(vf_jb)) { vf_creating_child = 0; printf("T %%d\n", vf_trapcode); }
+            else {
+                vf_creating_child = 1;
+                vf_children[vf_nchildren] = (%(inst_t)s*)vf_inst[k].common.newChild((wasmModuleInstance*)&vf_inst[k]);
+                vf_creating_child = 0;
+                printf("K %%d\n", 100 + vf_nchildren);
+                vf_nchildren++;
+            }
+        } else if (c == 'f') {
+            /* release a child instance: the embedder frees what the child owns and the instance itself */
+            int k = atoi(line + 2);
+            %(mod)sFreeInstance(vf_children[k - 100]);
+            free(vf_children[k - 100]);
+            vf_children[k - 100] = NULL;
+            printf("f ok\n");
         } else if (c == 'C') {
             int k, e, off = 0;
             sscanf(line + 2, "%%d %%d%%n", &k, &e, &off);
